@@ -468,6 +468,11 @@ func (e *Engine) slice(fi *fnInfo, st *State, x *ssa.Slice) AbsVal {
 				// a stored token (l.text) re-sliced with bounds computed from len(): not a cursor operation (see DESIGN: E7)
 				return AbsVal{k: vSlice, lenLo: 0, lenHi: base.lenHi}
 			}
+			if boundsProven(e.prog, x.Parent(), x) {
+				// bounds computed by index arithmetic on the slice itself: discharged by the bounds engine
+				e.check(st, "R-CURSOR", label, x.Pos(), true, "")
+				return AbsVal{k: vSlice, lenLo: 0, lenHi: base.lenHi}
+			}
 			e.undecided(st, "R-CURSOR", label, x.Pos(), "slice bound of a lexeme is neither a constant nor a cursor mark")
 			return AbsVal{k: vSlice, lenLo: 0, lenHi: base.lenHi}
 		}
@@ -501,6 +506,9 @@ func (e *Engine) slice(fi *fnInfo, st *State, x *ssa.Slice) AbsVal {
 			if high.hi < inf {
 				resHi = high.hi - low.lo
 			}
+		}
+		if !(okLow && okHigh) && boundsProven(e.prog, x.Parent(), x) {
+			okLow, okHigh = true, true
 		}
 		e.check(st, "R-CURSOR", label, x.Pos(), okLow && okHigh,
 			fmt.Sprintf("slice [%s:%s] of a lexeme of length [%d,%s] is not provably in range (distance of the lower bound mark from the end >= %s, fresh=%v): on some input this panics (slice bounds out of range)",
@@ -550,6 +558,10 @@ func (e *Engine) sliceIndex(fi *fnInfo, st *State, x *ssa.IndexAddr, base, idx A
 	} else if phi, isPhi := x.Index.(*ssa.Phi); isPhi {
 		// decreasing index initialised below the length and guarded by >= 0 (json consumeStringToken)
 		ok = e.decreasingIndex(st, phi, base)
+	}
+	if !ok {
+		// index arithmetic on the slice itself (i := len(lexeme)-1; i >= 0; i--) is the bounds engine's domain
+		ok = boundsProven(e.prog, x.Parent(), x)
 	}
 	if ok {
 		e.check(st, "R-CURSOR", label, x.Pos(), true, "")
@@ -1436,7 +1448,7 @@ func (e *Engine) summaries(callee *ssa.Function, st *State, args []AbsVal) []sum
 	for _, x := range exits {
 		// R-RESTORE: a scanner that reports failure without recording an error leaves the cursor where it started
 		if len(x.ret) == 1 && x.at != nil && x.st.errSet != 1 && !x.st.havoc {
-			if c, ok := x.ret[0].constInt(); ok && c == 0 && isFailureResult(callee) {
+			if c, ok := x.ret[0].constInt(); ok && c == 0 && isFailureResult(callee) && callee.Synthetic == "" {
 				key := fnLabel(callee) + " failure restores the position"
 				if _, exc := restoreExceptions[fnLabel(callee)]; !exc {
 					e.check(x.st, "R-RESTORE", key, x.at.Pos(), x.st.dispLo == 0 && x.st.dispHi == 0,
